@@ -187,9 +187,9 @@ _extend("C05", _SCEN + "; crafted single-defect images",
         "Additionally, images that violate exactly one acceptance rule (missing sentinel, repeated tag, declared > stored, non-absolute or non-contiguous addresses, entry MAC made with another index, wrong directory size) with all MACs recomputed are each rejected, and the undamaged image is accepted with its content.")
 _extend("C10", _SCEN + " with an independent decoder of the TLV block format",
         "Additionally, for 26 enumerated dictionaries (sizes around the 117-byte limit, oversize entries, deletions; thorough: 95 more) with symbolic contents the blocks are non-empty, bounded and decode to exactly the dictionary's operations in order.")
-_extend("C11", "constant folding of enumerated configurations through derive_auth_blocks_from_config (concrete-control interpretation)",
+_extend("C11", "abstract interpretation with concrete control of derive_auth_blocks_from_config over enumerated key subsets with symbolic security code / version / naming values",
         "Additionally, for 165 (configuration, initial-block kind) pairs derived twice: exactly the requested initial block plus an update block with the security code and the project-settings (else device-settings) identifier version exactly when both exist.")
-_extend("C12", "constant folding of every subset of the naming values through create_from_prj_settings / create_from_dev_settings (concrete-control interpretation)",
+_extend("C12", "abstract interpretation with concrete control of create_from_prj_settings / create_from_dev_settings over every subset of the naming values (symbolic values, enumerated widths), results compared as terms",
         "Additionally, for every subset of the 0x0620 naming values (several byte widths, the unknown customer code) the identifier denotes exactly the given values, falls back to the name-only form, or raises the documented error.")
 _extend("C13", _SCEN.replace("AES block function, CRC-16 and EC operations", "the BF2 text parser") + " over enumerated record sequences",
         "Additionally, for 9 enumerated record sequences with symbolic line contents the importer's state machine yields exactly the expected components (ignored sections, page crossing, gaps / overlaps / missing marker rejected).")
